@@ -308,11 +308,11 @@ func unitDone(r *mon.Run) {
 
 func child(r *mon.Run, args []string) {
 	// the live heap of a child is tiny; without this the collector runs every few MB of garbage
-	debug.SetGCPercent(1600)
+	debug.SetGCPercent(400)
 	debug.SetMemoryLimit(1 << 30) // ... but collect before the address-space limit below is in sight
 	// memory guard: a decoder that trusts a declared length (or loops without consuming input) must
 	// kill this child ("out of memory" -> reported by the parent with the case in flight), not the machine
-	lim := uint64(3) << 30
+	lim := uint64(4) << 30
 	syscall.Setrlimit(syscall.RLIMIT_AS, &syscall.Rlimit{Cur: lim, Max: lim})
 	for i, tg := range targets {
 		tg.idx = i
@@ -352,7 +352,7 @@ func child(r *mon.Run, args []string) {
 		flushEvery = 64
 		childExh(r, shard)
 	case "gen":
-		flushEvery = 64
+		flushEvery = uint64(r.Pick(64, 2048)) // a flush rewrites the measured sets; keep it rare when they are large
 		childGen(r, shard)
 	}
 	flushCounts(r)
@@ -421,9 +421,9 @@ func childExh(r *mon.Run, shard int) {
 
 // childGen: seeded generators. Work items (units) are dealt round-robin over the shards.
 func childGen(r *mon.Run, shard int) {
-	nVal := r.Pick(1500, 60000) // values per type
-	nMut := r.Pick(250, 10000)  // of which mutated (x len(mutKinds))
-	nHost := r.Pick(24000, 1500000)
+	nVal := r.Pick(1500, 30000) // values per type
+	nMut := r.Pick(250, 4000)   // of which mutated (x len(mutKinds))
+	nHost := r.Pick(24000, 800000)
 	iface, raw := targetByName("interface{}"), targetByName("rlp.RawValue")
 	var allocT []*target
 	for _, tg := range targets {
